@@ -297,10 +297,13 @@ class DistributedNetwork(BaseManager):
             return
 
         self.children.append(peer)
-        # Let the child know where we are in the distributed tree
-        root, level = self._get_advertised_branch_values()
-
+        # Let the child know where we are in the distributed tree. The values
+        # are read again before each message: they can change while a write to
+        # a slow peer is pending
+        _, level = self._get_advertised_branch_values()
         await peer.connection.send_message(DistributedBranchLevel.Request(level))
+
+        root, level = self._get_advertised_branch_values()
         if level != 0:
             await peer.connection.send_message(DistributedBranchRoot.Request(root))
 
